@@ -761,6 +761,48 @@ func main() {
 		emitStrList("iterateShape", iter, len(iter) > 0)
 	}
 
+	// --- the glue between the document operations and the ANN index (C05 history theorem):
+	// which index and storage calls each operation makes, in source order, with the index arguments
+	{
+		var glue []string
+		names := map[string]bool{"getDocument": true, "removePoint": true, "addPoint": true,
+			"WriteRecord": true, "RemoveRecord": true, "ReadRecord": true}
+		for _, mname := range []string{"AddDocument", "UpdateDocument", "removeDocument"} {
+			fd := method("collection.go", "Collection", mname)
+			if fd == nil {
+				continue
+			}
+			type hit struct {
+				pos token.Pos
+				txt string
+			}
+			var hits []hit
+			ast.Inspect(fd.Body, func(x ast.Node) bool {
+				if c, ok := x.(*ast.CallExpr); ok {
+					if f, ok := c.Fun.(*ast.SelectorExpr); ok && names[f.Sel.Name] {
+						t := f.Sel.Name
+						if t == "removePoint" || t == "addPoint" {
+							var as []string
+							for _, a := range c.Args {
+								as = append(as, strings.Join(strings.Fields(src(a)), " "))
+							}
+							t += "(" + strings.Join(as, ", ") + ")"
+						}
+						hits = append(hits, hit{c.Pos(), t})
+					}
+				}
+				return true
+			})
+			sort.Slice(hits, func(i, j int) bool { return hits[i].pos < hits[j].pos })
+			var ts []string
+			for _, h := range hits {
+				ts = append(ts, h.txt)
+			}
+			glue = append(glue, mname+": "+strings.Join(ts, "; "))
+		}
+		emitStrList("indexGlue", glue, len(glue) > 0)
+	}
+
 	// --- distance functions: statement shapes
 	for _, name := range []string{"euclideanDistance", "angularDistance"} {
 		fd := funcDecl("collection.go", name)
